@@ -383,7 +383,35 @@ func resolveAnchors(p *Prog) (*Anchors, error) {
 		})
 	}
 	if a.StatusFailed == nil {
-		return nil, fmt.Errorf("anchor unresolved: failed status constant (return in ctx.Done arm of dispatcher)")
+		// the interrupt test may live in a helper: fall back to the status
+		// constant that accompanies freshly constructed errors (`return k,
+		// fmt.Errorf(…)`) throughout the package, which must be unanimous
+		seen := map[*types.Const]int{}
+		for _, f := range p.Pkgs[pkgExec].Syntax {
+			ast.Inspect(f, func(n ast.Node) bool {
+				r, ok := n.(*ast.ReturnStmt)
+				if !ok || len(r.Results) != 2 {
+					return true
+				}
+				if _, isCall := r.Results[1].(*ast.CallExpr); !isCall {
+					return true
+				}
+				if id, ok := r.Results[0].(*ast.Ident); ok {
+					if c, ok := info.Uses[id].(*types.Const); ok && types.Identical(c.Type(), a.StatusType) {
+						seen[c]++
+					}
+				}
+				return true
+			})
+		}
+		if len(seen) == 1 {
+			for c := range seen {
+				a.StatusFailed = c
+			}
+		}
+	}
+	if a.StatusFailed == nil {
+		return nil, fmt.Errorf("anchor unresolved: failed status constant (return in ctx.Done arm of dispatcher, or the constant returned with constructed errors)")
 	}
 	if fd := p.funcDecl(a.BoolDispatcher); fd != nil {
 		ast.Inspect(fd.Body, func(n ast.Node) bool {
